@@ -27,10 +27,23 @@ def _one(args):
             import ast
             with open(os.path.join(tmp, rel)) as f:
                 ast.parse(f.read())
-            buf = io.StringIO()
-            with contextlib.redirect_stdout(buf):
-                code = run_property(prop, "quick", tmp, 0, write=False)
-            out = buf.getvalue()
+            # a mutant is first checked without the normal-form retries (they can only discharge, and they are slow on a tree
+            # that really violates a rule); when it is reported, the verdict is confirmed with the retries switched on
+            passes = (True, False) if kind == "mutant" else (False,)
+            for no_nf in passes:
+                if no_nf:
+                    os.environ["SA_NO_NORMAL_FORMS"] = "1"
+                else:
+                    os.environ.pop("SA_NO_NORMAL_FORMS", None)
+                buf = io.StringIO()
+                try:
+                    with contextlib.redirect_stdout(buf):
+                        code = run_property(prop, "quick", tmp, 0, write=False)
+                finally:
+                    os.environ.pop("SA_NO_NORMAL_FORMS", None)
+                out = buf.getvalue()
+                if code == 0:
+                    break
     except ValueError as e:
         return dict(prop=prop, kind=kind, file=rel, note=note, outcome="skipped", why=str(e)[:120])
     except SyntaxError as e:
@@ -160,8 +173,14 @@ def _sweep(prop: str, root: str, seed: int, analysed):
     jobs = [{"prop": prop, "rel": rel, "func": q, "line": ln, "desc": d, "old": o, "new": n, "src": src, "root": root}
             for (rel, q, ln, d, o, n, src) in sample]
     n = min(16, os.cpu_count() or 4, max(1, len(jobs)))
-    with mp.get_context("fork").Pool(n, maxtasksperchild=60) as pool:
-        res = pool.map(_sweep_one, jobs, chunksize=4)
+    # the sample is judged without the normal-form retries (they can only turn a report into a pass and cost ~10x on a reported
+    # mutant); the corpus and the filed seeds above are judged with them
+    os.environ["SA_NO_NORMAL_FORMS"] = "1"
+    try:
+        with mp.get_context("fork").Pool(n, maxtasksperchild=60) as pool:
+            res = pool.map(_sweep_one, jobs, chunksize=4)
+    finally:
+        os.environ.pop("SA_NO_NORMAL_FORMS", None)
     rep = [r for r in res if r["code"] == 1]
     ref = [r for r in res if r["code"] == 2]
     sur = [r for r in res if r["code"] == 0]
